@@ -273,12 +273,20 @@ func (a *apiRunner) list(b string, hasP bool, pfx string, hasD bool, d string) {
 
 // apiSequences runs random Backend-interface histories on one backend kind.
 func apiSequences(c *Ctx, kind string, nSeq, maxLen int) {
-	model := map[string]string{"bolt": "bolt"}[kind]
+	model := map[string]string{"bolt": "bolt", "fsM-mem": "fsM", "fsM-dir": "fsM"}[kind]
 	if model == "" {
 		return
 	}
 	buckets := []string{"bk1", "bk2", "bk3", "bk1", "bk2", "_meta", ""}
 	keys := []string{"a", "a/b", "a/b/c", "ab", "a.b", "b", "b/", "a//b", "bucket/bk1", "bucket/bk2", "é", ""}
+	isFs := model == "fsM"
+	if isFs {
+		// Model/FsBackend speaks about bucket names that pass the create-bucket rule (the front end
+		// admits no others); keys: conflicting ones ("a" against "a/b/c"), keys that are no clean
+		// relative paths, and ordinary ones
+		buckets = []string{"bk1", "bk2", "bk3", "bk1", "bk2", "nosuch"}
+		keys = []string{"a", "a/b", "a/b/c", "ab", "a.b", "b", "b/", "a//b", "../bk2/a", "./a", "a/./b", "a/..", "..", ".", "é", "", "d/e/f/g", "d/e"}
+	}
 	prefixes := []string{"", "a", "a/", "a/b", "a/b/", "b", "bucket/", "c", "a.", "/"}
 	metas := []map[string]string{nil, {"Content-Type": "text/plain"}, {"X-Amz-Meta-A": "1", "Content-Type": "x/y"}, {"X-Amz-Meta-B": ""}, {"X-Amz-Acl": "private"}}
 	for s := 0; s < nSeq; s++ {
@@ -326,6 +334,9 @@ func apiSequences(c *Ctx, kind string, nSeq, maxLen int) {
 				a.copy(pickB(), pickK(), pickB(), pickK(), metas[c.Rng.Intn(len(metas))])
 				interesting++
 			default:
+				if isFs {
+					continue // the listings of the fs backends are not part of Model/FsBackend (C03 compares them with the specification)
+				}
 				a.list(pickB(), c.Rng.Intn(3) > 0, prefixes[c.Rng.Intn(len(prefixes))], c.Rng.Intn(2) == 0, []string{"/", "/", ".", "b"}[c.Rng.Intn(4)])
 			}
 		}
